@@ -37,7 +37,11 @@ def run(chk, tier, overlays=()):
     dispatch(chk, P)
     pairidx(chk, P)
     candidates(chk, P)
+    clones(chk, P)
+    ties(chk, P)
+    deadcond(chk, P)
     chk.floor("SWITCH", 20)
+    chk.floor("CLONE", 4)
     chk.floor("PAIRIDX", 14)
     chk.floor("REACHDEF", 6)
 
@@ -254,10 +258,121 @@ def candidates(chk, P):
         chk.judge(ok, "REACHDEF", "clear(%s)-first" % nm, f.loc, "outputs cleared before candidates are collected")
 
 
+import json as _json
+
+RENAME = [("scheduledEventHandlers", "H"), ("scheduledEventReporters", "H"), ("scheduledEventIds", "IDS"), ("scheduledReportIds", "IDS"),
+          ("ScheduledEventHandler", "HT"), ("ScheduledEventReporter", "HT"),
+          ("calcTimeOfNextScheduledEvent", "CALC"), ("calcTimeOfNextScheduledReport", "CALC"),
+          ("triggeredEventHandlers", "TH"), ("triggeredEventReporters", "TH"), ("triggeredEventIds", "TIDS"), ("triggeredReportIds", "TIDS")]
+
+
+def _trace(fn):
+    """normalised event trace of a function: per reachable block (CFG order) the calls / assignments / branch conditions, with the
+    sibling renaming applied; compares structure and operators, not source text or positions"""
+    out = []
+    for b in sorted(fn.reachable(), reverse=True):
+        blk = fn.blocks[b]
+        row = []
+        for e in blk["ev"]:
+            if e["k"] == "call" and not e.get("ctor"):
+                row.append("call " + _json.dumps(e["x"]))
+            elif e["k"] == "assign":
+                row.append("assign %s %s %s" % (_json.dumps(e["lhs"]), e["op"], _json.dumps(e["rhs"])))
+            elif e["k"] == "ret":
+                row.append("ret " + _json.dumps(e["val"]))
+        t = blk.get("term")
+        if t:
+            row.append("branch %s %s" % (t["k"], _json.dumps(t.get("cond"))))
+        row.append("succ %d" % len([s for s in blk["succ"] if s >= 0]))
+        txt = "\n".join(row)
+        for a, bb in RENAME:
+            txt = txt.replace(a, bb)
+        out.append(txt)
+    return out
+
+
+def clones(chk, P):
+    chk.rule("CLONE", "sibling implementations of one interface agree: calcTimeOfNextScheduledEventImpl and ...ReportImpl (in DefaultSystemSubsystem::Guts and in "
+             "System::Guts) have identical normalised event traces (same calls, assignments, comparison operators and branch structure) modulo the renaming "
+             "handlers<->reporters, eventIds<->reportIds")
+    for cls in (DG, "SimTK::System::Guts"):
+        a = P.fn(cls + "::calcTimeOfNextScheduledEventImpl")
+        b = P.fn(cls + "::calcTimeOfNextScheduledReportImpl")
+        ta, tb = _trace(a), _trace(b)
+        diff = None
+        if len(ta) != len(tb):
+            diff = "different number of basic blocks (%d vs %d)" % (len(ta), len(tb))
+        else:
+            for k, (x, y) in enumerate(zip(ta, tb)):
+                if x != y:
+                    xl, yl = x.split("\n"), y.split("\n")
+                    d = [(p, q) for p, q in zip(xl, yl) if p != q] or [(xl[-1], yl[-1])]
+                    diff = "block %d differs: %s  vs  %s" % (k, d[0][0][:160], d[0][1][:160])
+                    break
+        chk.judge(diff is None, "CLONE", "%s::calcTimeOfNextScheduledEventImpl~ReportImpl" % cls.replace("SimTK::", ""), a.loc,
+                  "the event and report versions disagree: %s" % diff)
+        chk.ok("CLONE", "%s:trace-length=%d" % (cls.replace("SimTK::", ""), len(ta)), a.loc)
+
+
+def ties(chk, P):
+    chk.rule("TIES", "in all four calcTimeOfNextScheduled*Impl bodies events due at exactly the same time accumulate: an id is appended under `time <= tNextEvent` "
+             "and the accumulated list is cleared only under the strict `time < tNextEvent`")
+    for cls in (DG, "SimTK::System::Guts"):
+        for nm in ("calcTimeOfNextScheduledEventImpl", "calcTimeOfNextScheduledReportImpl"):
+            f = P.fn(cls + "::" + nm)
+            tn = f.d["params"][1][0]
+            ids = f.d["params"][2][0]
+            def cmp_region(op):
+                reg = set()
+                for g in guard_blocks(f, lambda c: bool(sx_find(c, lambda y: y[0] == "op" and y[1] == op and var_of(y[2]) == "time" and var_of(y[3]) == tn)), 0):
+                    dom = f.dominators()
+                    reg |= {x for x in dom if g in dom[x]}
+                return reg
+            le, lt = cmp_region("<="), cmp_region("<")
+            pushes = [(b, e) for b, _, e in f.calls() if e.get("fn", "").endswith("::push_back") and var_of(call_obj(e)) == ids]
+            clears = [(b, e) for b, _, e in f.calls() if e.get("fn", "").endswith("::clear") and var_of(call_obj(e)) == ids and f.loop_depth(b) > 0]
+            inst = "%s::%s" % (cls.replace("SimTK::", ""), nm)
+            chk.judge(bool(pushes) and all(b in le for b, e in pushes), "TIES", inst + ":append-under-<=", f.loc, "ids are appended under time <= tNextEvent (ties accumulate)")
+            chk.judge(bool(clears) and all(b in lt for b, e in clears), "TIES", inst + ":clear-only-under-<", f.loc, "the accumulated ids are cleared only when a strictly earlier time is found")
+
+
+def deadcond(chk, P):
+    chk.rule("DEADCOND", "no branch compares two variables with <, > or != immediately after one was assigned from the other (a stated belief that can never hold: the "
+             "guarded statement -- clearing stale event ids -- would be dead code); checked in the event scheduling/dispatch functions")
+    n = 0
+    fams = [f for f in P.all_fns() if f.name.split("::")[-1] in ("calcTimeOfNextScheduledEventImpl", "calcTimeOfNextScheduledReportImpl", "handleEventsImpl", "reportEventsImpl",
+                                                              "findEventCandidates", "stepTo") and ("Guts" in f.name or "TimeStepperRep" in f.name or "IntegratorRep" in f.name)]
+    for f in fams:
+        for b, blk in f.blocks.items():
+            t = blk.get("term")
+            if not t or "cond" not in t or not isinstance(t["cond"], list):
+                continue
+            for c in sx_find(t["cond"], lambda y: y[0] == "op" and y[1] in ("<", ">", "!=") and var_of(y[2]) and var_of(y[3])):
+                va, vb = var_of(c[2]), var_of(c[3])
+                n += 1
+                # walk back in the block: an assignment vb = va (or va = vb) with no later write to either
+                last = None
+                for e in blk["ev"]:
+                    w = ev_write(e)
+                    if w and var_of(w[0]) in (va, vb):
+                        last = (var_of(w[0]), var_of(w[2]) if w[2] is not None else None, w[1])
+                bad = last is not None and last[2] == "=" and {last[0], last[1]} == {va, vb}
+                chk.judge(not bad, "DEADCOND", "%s:%s%s%s" % (f.name.replace("SimTK::", ""), va, c[1], vb), "%s:%d" % (f.file, t["line"]),
+                          "`%s %s %s` is tested right after `%s = %s`: it can never be true" % (va, c[1], vb, last[0] if last else "?", last[1] if last else "?"))
+    chk.judge(n >= 4, "DEADCOND", "comparisons-examined", "", "variable/variable comparisons examined: %d" % n)
+
+
 _T = "SimTKmath/Integrators/src/TimeStepper.cpp"
 _S = "SimTKcommon/Simulation/src/System.cpp"
 _H = "SimTKmath/Integrators/src/IntegratorRep.h"
 MUTATIONS = [
+    dict(name="seeded (sub-agent): coincident scheduled handlers, only the first is listed", file=_S,
+         old="            if (time <= tNextEvent \n                && (time > s.getTime() \n                    || (includeCurrentTime && time == s.getTime()))) \n            {\n                if (time < tNextEvent)\n                    eventIds.clear();\n                tNextEvent = time;\n                eventIds.push_back(info.scheduledEventIds[i]);",
+         new="            if (time < tNextEvent \n                && (time > s.getTime() \n                    || (includeCurrentTime && time == s.getTime()))) \n            {\n                eventIds.clear();\n                tNextEvent = time;\n                eventIds.push_back(info.scheduledEventIds[i]);",
+         expect="CLONE:DefaultSystemSubsystem::Guts::calcTimeOfNextScheduledEventImpl~ReportImpl"),
+    dict(name="combiner overwrites the time before testing it (pre-fix code)", arm=True, file=_S,
+         old="            if (time < tNextEvent) \n                eventIds.clear(); // otherwise just accumulate\n            tNextEvent = time;\n", new="            tNextEvent = time;\n            if (time < tNextEvent) \n                eventIds.clear(); // otherwise just accumulate\n",
+         occurrence=0, expect="DEADCOND:System::Guts::calcTimeOfNextScheduledEventImpl"),
     dict(name="triggered events dispatched with the scheduled id list", arm=True, file=_T,
          old="                                    Event::Cause::Triggered,\n                                    integ->getTriggeredEvents(),",
          new="                                    Event::Cause::Triggered,\n                                    scheduledEventIds,", expect="case:ReachedEventTrigger:ids"),
